@@ -49,3 +49,25 @@ impl Mock {
         *self.now.write().expect("lock poisoned") += amount;
     }
 }
+
+#[cfg(mini_moka_verif)]
+impl Clock {
+    pub(crate) fn verif_mock() -> (Clock, Arc<Mock>) {
+        let mock = Arc::new(Mock::default());
+        let clock = Clock {
+            mock: Some(Arc::clone(&mock)),
+        };
+        (clock, mock)
+    }
+}
+
+#[cfg(mini_moka_verif)]
+impl Mock {
+    pub(crate) fn verif_increment(&self, amount: std::time::Duration) {
+        *self.now.write().expect("lock poisoned") += amount;
+    }
+
+    pub(crate) fn verif_now(&self) -> Instant {
+        *self.now.read().expect("lock poisoned")
+    }
+}
